@@ -80,8 +80,9 @@ def _bht_vriics(ctx):
         fn = ctx.func(modname, qual)
         vals = None
         for n in ast.walk(fn):
-            if isinstance(n, ast.Compare) and len(n.ops) == 1 and isinstance(n.ops[0], ast.In) \
-                    and path_of(n.left) == 'vriic' and isinstance(n.comparators[0], (ast.Tuple, ast.List)):
+            # (`vriic in (..)`: do the lookup, or `vriic not in (..)`: skip it; the name may carry a holder prefix)
+            if isinstance(n, ast.Compare) and len(n.ops) == 1 and isinstance(n.ops[0], (ast.In, ast.NotIn)) \
+                    and (path_of(n.left) or '').split('.')[-1].split('__')[-1] == 'vriic' and isinstance(n.comparators[0], (ast.Tuple, ast.List)):
                 vals = {A.const(x) for x in n.comparators[0].elts}
         if vals is None:
             raise AnalysisError('%s:%s no longer tests `vriic in (...)` before the BHT02 lookup' % (modname, qual))
